@@ -125,18 +125,25 @@ func main() {
 				stuck = true
 			}
 		}
+		if !stuck {
+			// a final quiescent read, still through the gate: if an earlier operation leaked the update lock this read
+			// spins for ever, which must show up as non-termination and not hang the driver
+			fin := sc.Spawn(func() {
+				now := clk.NowMs()
+				tr.Emit(hx.M{"op": "inv", "p": 8, "kind": "read", "ts": now, "n": 0})
+				tr.Emit(hx.M{"op": "ret", "p": 8, "val": arr.Count(base.MetricEventPass), "now": now})
+			})
+			for n := 0; !fin.Done && n < 3000; n++ {
+				sc.Step(fin)
+			}
+			stuck = !fin.Done
+		}
 		sc.Close()
 		if stuck {
 			// the property demands that every recorder and reader terminates: this is an observable, judged by the spec.
 			// (the goroutines of this scenario stay parked at their yield points for ever; the next scenario uses a fresh array)
 			tr.Emit(hx.M{"op": "stuck"})
-			tr.Emit(hx.M{"op": "end"})
-			continue
 		}
-		// a final quiescent read by the driver itself
-		now := clk.NowMs()
-		tr.Emit(hx.M{"op": "inv", "p": 8, "kind": "read", "ts": now, "n": 0})
-		tr.Emit(hx.M{"op": "ret", "p": 8, "val": arr.Count(base.MetricEventPass), "now": now})
 		tr.Emit(hx.M{"op": "end"})
 	}
 }
